@@ -541,7 +541,7 @@ pub fn gen_layers(rng: &mut Rng, o: &GenOpts) -> Vec<WLayer> {
 			};
 			features.push(WFeature { id, gtype, geom: gen_geometry(rng, gtype), props });
 		}
-		layers.push(WLayer { name, version: *rng.pick(&[1u32, 2, 2, 2]), extent: *rng.pick(&[4096u32, 4096, 512, 8192, 256]), features });
+		layers.push(WLayer { name, version: *rng.pick(&[1u32, 2, 2, 2, 3]), extent: *rng.pick(&[4096u32, 4096, 512, 8192, 256]), features });
 	}
 	if o.wide_tables > 0.0 && rng.chance(o.wide_tables) {
 		layers.push(wide_layer(rng, o));
